@@ -313,6 +313,11 @@ func comparable(x *X) bool {
 			return false
 		}
 	}
+	for _, e := range x.Keys {
+		if !comparable(e) {
+			return false
+		}
+	}
 	return true
 }
 
